@@ -78,8 +78,42 @@ class SymMat(SymArr):
     def copy(self):
         return SymMat(self.shape, list(self.flat))
 
+    def row(self, i):
+        n = self.shape[1]
+        i = i if i >= 0 else self.shape[0] + i
+        return SymMat((1, n), list(self.flat[i * n:(i + 1) * n]))
+
+    def col(self, j):
+        n = self.shape[1]
+        j = j if j >= 0 else n + j
+        return SymMat((self.shape[0], 1), [self.flat[i * n + j] for i in range(self.shape[0])])
+
+    def tolist(self):
+        n = self.shape[1] if self.ndim == 2 else 1
+        return [list(self.flat[i * n:(i + 1) * n]) for i in range(self.shape[0])]
+
+    @property
+    def T(self):
+        t = SymArr.transpose(self)
+        return SymMat(t.shape, list(t.flat))
+
     def atoms(self, *a):
         return set()
+
+    @property
+    def free_symbols(self):
+        out, seen = [], set()
+        for e in self.flat:
+            for a in A.lift(e).atoms():
+                if a[0] != "sym":
+                    raise A.Undecided("free symbols of a non-polynomial entry")
+                if a[1].startswith(("f", "a", "V", "F", "D[")) and not a[1].startswith(("x", "p")):
+                    # an opaque stand-in for "some expression of the states and parameters": its free symbols are not defined
+                    raise A.Undecided("free symbols of an opaque right-hand side")
+                if a[1] not in seen:
+                    seen.add(a[1])
+                    out.append(A.sym(a[1]))
+        return out
 
     def __deepcopy__(self, memo):
         return self.copy()
@@ -184,8 +218,93 @@ def check(repo, res, tier):
     shapes = ((2, 3, 2), (3, 2, 3), (1, 2, 1), (2, 1, 3)) + (((4, 2, 4), (2, 4, 1), (1, 1, 1), (3, 3, 2)) if tier == "thorough" else ())
     n = check_builders(repo, res, None, shapes)
     res.floor("builder interpretations", n, 48)
+    nc = check_concrete(repo, res)
+    res.floor("builders on a written-out right-hand side", nc, 4)
     check_shapes(repo, res, {"jacobian", "grad", "diff_jacobian", "grad_jacobian", "transitionJacobian", "transitionMean", "transitionVar"},
                  {"transitionJacobian": "one-event models", "jacobian": "one-state models"})
+
+
+class CMat(SymMat):
+    """matrix of written-out polynomials: derivatives are real derivatives"""
+
+    def jacobian(self, syms):
+        return CMat((len(self.flat), len(syms)), [A.diff(A.lift(e), _atom_name(s_)) for e in self.flat for s_ in syms])
+
+    def copy(self):
+        return CMat(self.shape, list(self.flat))
+
+    def __add__(self, o):
+        r = SymArr.__add__(self, o)
+        return CMat(r.shape, r.flat)
+
+
+def check_concrete(repo, res):
+    """the derivative builders on a model whose right-hand side is written out (polynomials in which one declared parameter and one
+    state do not occur): every entry is compared with the derivative of that polynomial, zero rows / columns included.  Decides code
+    that inspects the expressions (free symbols, zero tests), which an opaque right-hand side cannot."""
+    nS, nP = 3, 3
+    xs = [A.sym("x%d" % i) for i in range(nS)]
+    ps = [A.sym("p%d" % k) for k in range(nP)]
+    x0, x1, x2 = xs
+    p0, p1, p2 = ps
+    # p1 occurs nowhere, x2 occurs nowhere; f2 is linear
+    f = [-(p0 * x0 * x1), p0 * x0 * x1 - p2 * x1 * x1, p2 * x1]
+    cls = M.sim_class(repo)
+
+    def dd(e, *vs):
+        for v in vs:
+            e = A.diff(e, v)
+        return e
+    want = {
+        "get_jacobian_eqn": SymMat((nS, nS), [dd(f[i], "x%d" % j) for i in range(nS) for j in range(nS)]),
+        "get_grad_eqn": SymMat((nS, nP), [dd(f[i], "p%d" % k) for i in range(nS) for k in range(nP)]),
+        "get_diff_jacobian_eqn": SymMat((nS * nS, nS), [dd(f[e_], "x%d" % i, "x%d" % j) for e_ in range(nS) for i in range(nS) for j in range(nS)]),
+        "get_grad_jacobian_eqn": SymMat((nS * nP, nS), [dd(f[i], "p%d" % k, "x%d" % j) for k in range(nP) for i in range(nS) for j in range(nS)]),
+    }
+    n = 0
+    for name, wm in want.items():
+        fn = repo.resolve_method(cls, name)
+        if fn is None:
+            continue
+        me = Obj("Model", _isDifficult=False)
+        fm = CMat((nS, 1), list(f))
+
+        def setter(attr, val):
+            def s_(me_):
+                me_.attrs[attr] = val.copy()
+                return me_.attrs[attr]
+            return s_
+
+        def diff_(e, v, n_=1):
+            nm = _atom_name(v)
+            out = A.lift(e)
+            for _ in range(int(n_)):
+                out = A.diff(out, nm)
+            return out
+        summ = {
+            "Model.get_ode_eqn": setter("_ode", fm), "Model.get_grad_eqn": setter("_Grad", CMat(want["get_grad_eqn"].shape, list(want["get_grad_eqn"].flat))),
+            "Model._iterStateList": lambda me_: list(xs), "Model._iterParamList": lambda me_: list(ps),
+            "sympy.zeros": lambda r, c=None: CMat((r, c if c is not None else r), [0] * (r * (c if c is not None else r))),
+            "diff": diff_, "sympy.diff": diff_, "simplifyEquation": lambda e: (e, False),
+            "copy.deepcopy": lambda x: x.copy() if hasattr(x, "copy") else x,
+        }
+        getters = {"num_state": lambda m: nS, "num_param": lambda m: nP}
+        tag = name + "(written-out right-hand side)"
+        try:
+            ab = Abs({}, {}, summ, me, getters)
+            ab.class_methods = set(repo.all_methods(cls)) | {g for c in repo.mro(cls) for g in c.getters}
+            kind, out = ab.run_function(fn.node, {})
+        except A.Undecided as e:
+            res.undecided("R-DERIV", fn, tag, "outside the modelled subset: %s" % e)
+            continue
+        n += 1
+        if kind != "return" or not isinstance(out, SymArr):
+            res.violated("R-DERIV", fn, tag, "%s %s %s" % (name, kind, out), node=fn.node)
+            continue
+        d = L.first_diff(SymArr(out.shape, out.flat), SymArr(wm.shape, wm.flat))
+        res.check(d is None, "R-DERIV", fn, tag, "every entry is the derivative of the written-out right-hand side (a parameter and a state that do not occur give zero columns in place)",
+                  "%s on f = [-p0 x0 x1, p0 x0 x1 - p2 x1^2, p2 x1] with parameters (p0, p1, p2): %s" % (name, d), node=fn.node)
+    return n
 
 
 def check_builders(repo, res, names, shapes):
